@@ -226,6 +226,47 @@ func (h *hookStress) disarm() {
 	h.gate, h.parked = nil, nil
 }
 
+// gatedMetrics is the Metrics double the sampler factory gets: MockMetrics whose
+// Register can be made to stall when a refinery goroutine registers a sampler's
+// metrics - that call sits in the middle of the creation of a shared dynsampler,
+// and is the seam for "two workers create the same sampler at the same time".
+type gatedMetrics struct {
+	*metrics.MockMetrics
+	driver int64
+	mu     sync.Mutex
+	gate   chan struct{}
+	parked chan struct{}
+}
+
+func (g *gatedMetrics) Register(m metrics.Metadata) {
+	g.mu.Lock()
+	gate, parked := g.gate, g.parked
+	if gate != nil && goid() != g.driver && strings.HasSuffix(m.Name, "_num_kept") {
+		g.gate, g.parked = nil, nil
+	} else {
+		gate = nil
+	}
+	g.mu.Unlock()
+	if gate != nil {
+		close(parked)
+		<-gate
+	}
+	g.MockMetrics.Register(m)
+}
+
+func (g *gatedMetrics) arm() (release chan struct{}, parked chan struct{}) {
+	g.mu.Lock()
+	defer g.mu.Unlock()
+	g.gate, g.parked = make(chan struct{}), make(chan struct{})
+	return g.gate, g.parked
+}
+
+func (g *gatedMetrics) disarm() {
+	g.mu.Lock()
+	defer g.mu.Unlock()
+	g.gate, g.parked = nil, nil
+}
+
 // gatedPeers is the Peers double of World A: MockPeers whose GetPeers can be
 // made to stall, after it has taken its answer, when called from a goroutine
 // other than the driver's. That is the seam for "a peer-list lookup overtaken by
@@ -294,6 +335,7 @@ type worldA struct {
 	peers *peer.MockPeers
 	gpeers *gatedPeers
 	stress *hookStress
+	gmet   *gatedMetrics
 	sf    *sample.SamplerFactory
 	hl    *health.Health
 	start time.Time
@@ -482,7 +524,8 @@ func newWorldA(p *Plan, out *Outcome, preStart func(w *worldA)) *worldA {
 	w.peers = peer.NewMockPeers(pl, pl[0])
 	w.gpeers = &gatedPeers{MockPeers: w.peers, driver: goid()}
 	w.stress = &hookStress{MockStressReliever: &collect.MockStressReliever{}}
-	w.sf = &sample.SamplerFactory{Config: simConfig{w.cfg}, Metrics: w.met, Logger: &logger.NullLogger{}, Peers: w.gpeers}
+	w.gmet = &gatedMetrics{MockMetrics: w.met, driver: goid()}
+	w.sf = &sample.SamplerFactory{Config: simConfig{w.cfg}, Metrics: w.gmet, Logger: &logger.NullLogger{}, Peers: w.gpeers}
 	if err := w.sf.Start(); err != nil {
 		out.Harness = "sampler factory: " + err.Error()
 		return w
@@ -868,6 +911,8 @@ func (w *worldA) schedule() time.Duration {
 				w.release(op.S)
 			case "peers_race":
 				w.peersRace(op)
+			case "create_race":
+				w.createRace(op)
 			case "peers":
 				var pl []string
 				for i := int64(0); i < op.N; i++ {
@@ -899,6 +944,69 @@ func (w *worldA) midReloadDecision(op Op) {
 	}
 	w.drv.Settle()
 	w.out.Probe("decision_while_reload_half_done")
+}
+
+// createRace: two workers reach the lazy creation of the same sampler at the
+// same time - the first is stalled inside the creation, the second starts its
+// own, the first goes on.
+func (w *worldA) createRace(op Op) {
+	if w.nWorkers < 2 {
+		return
+	}
+	// two fresh traces of the same environment on different workers
+	a := int(op.I)
+	w.doSpan(Op{ID: op.ID, K: "span", I: int64(a), N: skRoot | op.J<<8, S: op.S})
+	ta := w.byIdx[a]
+	b := -1
+	for k := 1; k < 200; k++ {
+		if w.coll.VerifWorkerFor(traceIDFor(w.p.Seed, a+k)) != ta.worker {
+			b = a + k
+			break
+		}
+	}
+	if b < 0 {
+		return
+	}
+	w.doSpan(Op{ID: op.ID, K: "span", I: int64(b), N: skRoot | op.J<<8, S: op.S})
+	tb := w.byIdx[b]
+	w.drv.Settle()
+	tka := w.clk.Find(fmt.Sprintf("a/worker/%d", ta.worker))
+	tkb := w.clk.Find(fmt.Sprintf("a/worker/%d", tb.worker))
+	if tka == nil || tkb == nil {
+		return
+	}
+	release, parked := w.gmet.arm()
+	time.Sleep(w.tracesCfgTimeout() + time.Millisecond)
+	select {
+	case tka.ch <- time.Now():
+	default:
+	}
+	stalled := false
+	for i := 0; i < 20000 && !stalled; i++ {
+		select {
+		case <-parked:
+			stalled = true
+		default:
+			runtime.Gosched()
+		}
+	}
+	if !stalled {
+		// no creation happened (the worker already had this sampler)
+		w.gmet.disarm()
+		w.drv.Settle()
+		return
+	}
+	w.out.Probe("two_workers_in_the_same_sampler_creation")
+	select {
+	case tkb.ch <- time.Now():
+	default:
+	}
+	// the second worker either creates its own now or waits for the factory's lock
+	for i := 0; i < 5000; i++ {
+		runtime.Gosched()
+	}
+	close(release)
+	w.drv.Settle()
 }
 
 // peersRace: a lazy sampler creation on a worker looks the peer list up, is
